@@ -902,18 +902,29 @@ func postprocessACLParts(c *cmd, parts []string) {
 			convNamed(udpNames)
 		}
 	}
+	// Skip n words, but at most remaining words of incomplete command.
+	skip := func(n int) {
+		parts = parts[min(n, len(parts)):]
+	}
 	convObjectGroup := func() {
+		if len(parts) < 2 {
+			skip(2)
+			return
+		}
 		name := parts[1]
 		parts[1] = "$REF"
 		c.ref = append(c.ref, name)
 		parts = parts[2:]
 	}
 	convProto := func() {
+		if len(parts) == 0 {
+			return
+		}
 		switch parts[0] {
 		case "object-group":
 			convObjectGroup()
 		case "object":
-			parts = parts[2:]
+			skip(2)
 		default:
 			if name, found := protoNonNumeric[parts[0]]; found {
 				parts[0] = name
@@ -941,7 +952,7 @@ func postprocessACLParts(c *cmd, parts []string) {
 				convNamed(logNames)
 			case "host", "object", "object-group-security", "object-group-user",
 				"security-group", "user", "user-group":
-				parts = parts[2:]
+				skip(2)
 			case "any", "any4", "any6", "interface":
 				parts = parts[1:]
 			default:
